@@ -45,7 +45,7 @@ def guarded(f):
         return f()
     except AssertionError:
         return 'error:assert'
-    except (ValueError, TypeError, IndexError, KeyError, ZeroDivisionError, FloatingPointError) as e:
+    except Exception as e:   # any exception raised by the implementation is an outcome, never a harness crash
         return 'error:' + type(e).__name__
 
 
